@@ -265,6 +265,7 @@ func cancelPool() []ExecCase {
 	type pd struct{ p, d string }
 	docA := `{"a":[1,2,{"b":3}],"b":{"c":[4,5]},"s":"abc","t":"2015-08-01T12:00:00+01:00","d":"2015-08-01"}`
 	docB := `[1,"a",null,[2,3],{"a":1,"b":[1,2]}]`
+	docD := `["2023-01-01","2023-01-02T00:00:00+00:00","2023-01-03","2023-01-04T00:00:00+01:00","2023-01-05","2023-01-06T00:00:00+00:00","2023-01-07","2023-01-08T00:00:00+02:00","2023-01-09","2023-01-10T00:00:00+00:00"]`
 	docC := `["2015-08-01T12:00:00+01:00","2015-08-02T12:00:00+01:00","2015-08-03T12:00:00+01:00","2015-08-04T12:00:00+01:00","2015-08-05T12:00:00+01:00","2015-08-06T12:00:00+01:00","2015-08-07T12:00:00+01:00","2015-08-08T12:00:00+01:00","2015-08-09T12:00:00+01:00","2015-08-10T12:00:00+01:00","2015-08-11T12:00:00+01:00","2015-08-12T12:00:00+01:00","2015-08-13T12:00:00+01:00","2015-08-14T12:00:00+01:00"]`
 	pool := []pd{
 		{"$", docA}, {"$.a", docA}, {"$.a[*]", docA}, {"$.*", docB}, {"$[*]", docB}, {"$.**", docB}, {"$.**{1 to 2}", docA}, {"$.**{last}", docA}, {"strict $.**.b", docA},
@@ -284,6 +285,9 @@ func cancelPool() []ExecCase {
 		{"$[*] ? (@ == 1 || @ == \"a\")", docB}, {"$[*] ? (@.a == 1)", docB}, {"$[*] ? (exists(@.b[*] ? (@ > 1)))", docB}, {"$[*].a", docB}, {"strict $[*] ? ((@.a == 1) is unknown)", docB}, {"$[*] ? (@ starts with \"a\")", docB},
 		{"$[*] ? (@ like_regex \"a\")", docB}, {"$[*].type()", docB}, {"$[3][*] ? (@ > $[0])", docB}, {"$[4].b[last] ? (@ > 1)", docB}, {"$.**{2} ? (@ > 1)", docB}, {"$.** ? (@.type() == \"number\")", docB},
 		{"$[*] ? (((@ > 1) is unknown) || @ == 1)", docB},
+		// predicates over two sequences whose pairs each consult the context zone (cross-type datetime casts): the pair loop
+		{"strict $[*].datetime() < $[*].datetime()", docD}, {"strict $[*].date() == $[*].timestamp_tz()", docD}, {"$[*].datetime() > \"2030-01-01T00:00:00+00:00\".datetime()", docD},
+		{"strict $[*] ? (@.timestamp_tz() >= $[*].date())", docD},
 		{"$[*].timestamp_tz()", docC}, {"$[*].timestamp_tz().string()", docC}, {"$[*].date()", docC}, {"$[*] ? (@.datetime() < \"2016-01-01\".datetime())", docC}, {"$.**.time_tz()", docC}, {"strict $[0 to last].timestamp()", docC}, {"($[*] > 1) is unknown && exists($[4].a)", docB}, {"$[0 to (($[0] == 1) is unknown).size()]", docB},
 	}
 	var out []ExecCase
